@@ -27,10 +27,10 @@ ASSUMPTIONS = [
 ]
 BUDGET = {"quick": 80, "thorough": 900}
 ROUNDS = {"thorough": 8}
-FLOORS = {"overlay.C11.recomputed": {"quick": 50, "thorough": 800}, "operations": {"quick": 3000, "thorough": 30000}, "comparisons": {"quick": 10000, "thorough": 100000}, "graphs": 8, "op_kinds": 8,
+FLOORS = {"overlay.C11.recomputed": {"quick": 50, "thorough": 800}, "operations": {"quick": 3000, "thorough": 30000}, "comparisons": {"quick": 10000, "thorough": 100000}, "graphs": 8, "op_kinds": 8, "optimizer_runs": {"quick": 200, "thorough": 2000}, "optimizer_kinds": 4,
           "handlers_reached": 15}
 
-OPS = ["assign", "assign", "assign", "assign-view", "assign-cat", "assign-transformed", "sample", "rsample", "operator-accept", "operator-reject", "data-edit", "requires-grad"]
+OPS = ["optimizer-run", "assign", "assign", "assign", "assign-view", "assign-cat", "assign-transformed", "sample", "rsample", "operator-accept", "operator-reject", "data-edit", "requires-grad"]
 INVERTIBLE = ("ExpTransform", "SigmoidTransform", "LogTransform", "AffineTransform", "StickBreakingTransform", "CumSumExpTransform")
 _counts = {}
 
@@ -175,6 +175,9 @@ def _run_case(case):
                     # mechanism: a view's setter writes into its parent's tensor; when the parent is a TransformedParameter that is the
                     # cached transformed value, not the parameter underneath: the value is neither propagated down nor survives the next update
                     sig = "C11:assignment-through-a-view-of-a-transformed-parameter-writes-into-its-cache"
+                if last and last.startswith("Optimizer.run"):
+                    # mechanism: the library's own optimiser driver leaves a model un-notified after its last in-place step
+                    sig = "C11:stale-after-Optimizer.run:" + last.split("(")[1].split(",")[0]
                 V.append(tt.viol(sig, "%s after %s: %s is %s, a freshly built copy with the same parameter values gives %s (last operation: %s)"
                                  % (gname, where, k, np.asarray(x).reshape(-1)[:3], np.asarray(y).reshape(-1)[:3], last), history=history[-12:], cls=cls))
                 return False
@@ -187,10 +190,77 @@ def _run_case(case):
         v = zoo.draw(rng, dom, shape)
         return torch.tensor(np.asarray(v, dtype=float).reshape(shape))
 
+    def run_optimizer():
+        """the library's own Optimizer (in-place steps by a torch optimiser, notifications issued by Optimizer.run) on a random
+        density of the graph and a random subset of the parameters its gradient reaches"""
+        import contextlib
+        import io
+
+        from torchtree.optim.optimizer import Optimizer
+
+        cand_e = [i for i in g["evals"] if i not in g.get("stochastic", ())]
+        if not cand_e:
+            return None
+        e = str(rng.choice(cand_e))
+        for pid in leaves:
+            p = dic[pid]
+            p.tensor = p.tensor.detach().clone()
+            p.requires_grad = True
+        val = dic[e]().sum()
+        reached = []
+        if torch.isfinite(val) and val.requires_grad:
+            val.backward()
+            reached = [pid for pid in leaves if dic[pid].grad is not None and bool(torch.isfinite(dic[pid].grad).all()) and leaves[pid] in ("positive", "real", "unit")]
+        for pid in leaves:
+            p = dic[pid]
+            p.tensor = p.tensor.detach().clone()
+        if not reached:
+            return None
+        chosen = [str(x) for x in rng.choice(reached, size=min(len(reached), int(rng.integers(1, 4))), replace=False)]
+        params = [dic[pid] for pid in chosen]
+        for p in params:
+            p.requires_grad = True
+        kind = str(rng.choice(["sgd-momentum", "adam-decay", "lbfgs", "sgd-zero-gradient"]))
+        iterations = int(rng.integers(1, 4))
+        gmax = max(float(dic[pid].grad.abs().max()) if dic[pid].grad is not None else 0.0 for pid in chosen) if False else 1.0
+        tensors = [p.tensor for p in params]
+        if kind == "sgd-zero-gradient":
+            # a step that lands where the gradient is exactly zero while the momentum buffer is not (L1 penalty reaching 0)
+            if "lasso" not in dic:
+                kind = "sgd-momentum"
+            else:
+                e, chosen, params = "lasso", ["beta"], [dic["beta"]]
+                dic["beta"].tensor = torch.full_like(dic["beta"].tensor.detach(), 0.5)
+                dic["beta"].requires_grad = True
+                tensors = [dic["beta"].tensor]
+                topt = torch.optim.SGD(tensors, lr=0.5, momentum=0.9)
+                iterations = 2
+        if kind == "sgd-momentum":
+            topt = torch.optim.SGD(tensors, lr=1e-5, momentum=0.9)
+        elif kind == "adam-decay":
+            topt = torch.optim.Adam(tensors, lr=1e-3, weight_decay=0.01)
+        elif kind == "lbfgs":
+            topt = torch.optim.LBFGS(tensors, lr=1e-3, max_iter=int(rng.integers(1, 4)))
+        target = dic[e]
+        opt = Optimizer("vt.opt", params, lambda: target().sum(), topt, iterations, maximize=True)  # (Optimizer wants a scalar loss)
+        with contextlib.redirect_stdout(io.StringIO()):
+            opt.run()
+        # an unconstrained optimiser can leave the support (nothing the property is about): such a parameter is given a new value
+        for pid in chosen:
+            t = dic[pid].tensor.detach()
+            dom = leaves[pid]
+            if not bool(torch.isfinite(t).all()) or (dom in ("positive", "unit") and bool((t <= 1e-6).any())) or (dom == "unit" and bool((t >= 1 - 1e-6).any())) or bool((t.abs() > 1e3).any()):
+                dic[pid].tensor = new_value(pid)
+                C["optimizer_left_support"] = C.get("optimizer_left_support", 0) + 1
+        C["optimizer_runs"] = C.get("optimizer_runs", 0) + 1
+        C["optimizer_kinds"] = sorted(set(C.get("optimizer_kinds", [])) | {kind})
+        return "Optimizer.run (%s, %d iterations, maximise %s) on %s" % (kind, iterations, e, ", ".join(chosen))
+
     ok = True
     for step in range(case["length"]):
         op = str(rng.choice(OPS + (["heights-shape"] * 3 if extra_leaves else []) + (["assign-view-of-transformed"] if tviews else [])))
         desc = None
+        tview_written = False
         try:
             if op == "assign":
                 pid = str(rng.choice(list(leaves)))
@@ -266,6 +336,8 @@ def _run_case(case):
                 v.tensor = v.tensor.detach() * float(np.exp(abs(rng.normal(0, 0.2))))
                 tview_written = True
                 desc = "assign through view %s of a transformed parameter" % vid
+            elif op == "optimizer-run":
+                desc = run_optimizer()
             elif op == "heights-shape" and extra_leaves:
                 # the heights of a plain time tree get another sample shape (what Distribution.sample(sample_shape) does to them)
                 h = dic["tree.heights"]
